@@ -1,9 +1,10 @@
 //! C19 — concurrent compilations do not interfere.
 //!
-//! Free-running stress with real parallelism (barrier start): K threads compile and run K
-//! programs at the same time; each job's artefacts must equal those of the same job run alone.
-//! (A harness-owned deterministic scheduler would need a scheduling-point hook inside the
-//! repository's interner lock; it was not built — see DESIGN.md, limits.)
+//! Two spaces.  `stress`: free-running with real parallelism (barrier start): K threads compile
+//! and run K programs at the same time.  `sched`: the harness owns the interleaving — hook H3 puts
+//! a scheduling point in front of every session-globals access and `runners::coop` lets exactly
+//! one thread run at a time, switching where the case's *plan* (drawn from the tape) says.  In both
+//! each job's artefacts must equal those of the same job run alone in a fresh process.
 
 use crate::engine::case::*;
 use crate::engine::panics;
@@ -65,14 +66,35 @@ pub fn together_here(jobs: &[(String, bool)]) -> Vec<Result<String, String>> {
     handles.into_iter().map(|h| h.join().unwrap_or_else(|_| Err("thread-died".into()))).collect()
 }
 
+/// run all jobs in THIS process under a harness-owned schedule (`mmv together` with a plan)
+pub fn together_planned_here(jobs: &[(String, bool)], plan: Vec<(u64, u64)>) -> (Vec<Result<String, String>>, crate::runners::coop::Stats) {
+    let js: Vec<(String, bool)> = jobs.to_vec();
+    let (res, stats) = crate::runners::coop::run_planned(jobs.len(), plan, move |i| {
+        let (src, sched) = &js[i];
+        panics::catch(|| compile_artefacts(src, *sched, true).digest_with_diagnostics()).map_err(|p| p.signature())
+    });
+    (res.into_iter().map(|r| r.unwrap_or_else(|| Err("thread-died".into()))).collect(), stats)
+}
+
 /// one fresh child process that starts all jobs together (nothing was compiled in it before, so
 /// which thread interns, registers or caches something first is decided by the race alone)
 fn together(jobs: &[(String, bool)], tag: u64) -> Result<Vec<Result<String, String>>, String> {
+    together_with(jobs, None, tag).map(|(r, _)| r)
+}
+
+/// schedule statistics of a planned run: (scheduling points, switches, forced turns)
+type SchedStats = (u64, u64, u64);
+
+fn together_with(jobs: &[(String, bool)], plan: Option<&[(u64, u64)]>, tag: u64) -> Result<(Vec<Result<String, String>>, SchedStats), String> {
     let dir = "/verif/target/work/c19";
     let _ = std::fs::create_dir_all(dir);
     let path = format!("{dir}/{}-{tag:016x}.jobs.json", std::process::id());
     let js: Vec<Value> = jobs.iter().map(|(s, sc)| json!({"text": s, "sched": sc})).collect();
-    std::fs::write(&path, serde_json::to_vec(&js).unwrap()).map_err(|e| e.to_string())?;
+    let payload = match plan {
+        None => Value::Array(js),
+        Some(p) => json!({"jobs": js, "plan": p.iter().map(|(a, b)| json!([a, b])).collect::<Vec<_>>()}),
+    };
+    std::fs::write(&path, serde_json::to_vec(&payload).unwrap()).map_err(|e| e.to_string())?;
     let exe = std::env::current_exe().map_err(|e| e.to_string())?;
     let out = std::process::Command::new(exe).args(["together", &path]).output().map_err(|e| e.to_string());
     let _ = std::fs::remove_file(&path);
@@ -81,15 +103,23 @@ fn together(jobs: &[(String, bool)], tag: u64) -> Result<Vec<Result<String, Stri
         return Err(format!("child-died:{:?}", out.status.code()));
     }
     let v: Value = crate::engine::worker::child_result(&out.stdout)?;
-    let arr = v.as_array().ok_or("no array")?;
-    Ok(arr
-        .iter()
-        .map(|x| match (x.get("ok").and_then(|d| d.as_str()), x.get("err").and_then(|d| d.as_str())) {
-            (Some(d), _) => Ok(d.to_string()),
-            (_, Some(e)) => Err(e.to_string()),
-            _ => Err("malformed".into()),
-        })
-        .collect())
+    let (arr, stats) = match v.get("results") {
+        Some(r) => (r.as_array().ok_or("no array")?, {
+            let st = |k: &str| v.get("stats").and_then(|s| s.get(k)).and_then(|x| x.as_u64()).unwrap_or(0);
+            (st("points"), st("switches"), st("forced"))
+        }),
+        None => (v.as_array().ok_or("no array")?, (0, 0, 0)),
+    };
+    Ok((
+        arr.iter()
+            .map(|x| match (x.get("ok").and_then(|d| d.as_str()), x.get("err").and_then(|d| d.as_str())) {
+                (Some(d), _) => Ok(d.to_string()),
+                (_, Some(e)) => Err(e.to_string()),
+                _ => Err("malformed".into()),
+            })
+            .collect(),
+        stats,
+    ))
 }
 
 fn differs(alone: &[Result<String, String>], r: &[Result<String, String>]) -> Option<usize> {
@@ -98,9 +128,70 @@ fn differs(alone: &[Result<String, String>], r: &[Result<String, String>]) -> Op
 }
 
 fn finish(jobs: &[(String, bool)], classes: Vec<String>, cx: &Cx) -> CaseResult {
+    finish_with(jobs, None, classes, cx)
+}
+
+/// draw a schedule plan: (segment length in scheduling points, thread pick in 0..65536) pairs
+fn gen_plan(g: &mut Gen) -> (Vec<(u64, u64)>, &'static str) {
+    fn loglen(g: &mut Gen, bits: u64) -> u64 {
+        let e = g.int(0, bits as i64) as u64;
+        (1u64 << e) + g.below(1u64 << e)
+    }
+    let style = g.weighted(&[3, 3, 2, 3, 2]);
+    let n = g.int(4, 48) as usize;
+    let mut plan = vec![];
+    let name = match style {
+        0 => {
+            for _ in 0..n {
+                plan.push((g.int(0, 3) as u64, g.below(65536)));
+            }
+            "plan:fine"
+        }
+        1 => {
+            for _ in 0..n {
+                plan.push((loglen(g, 12), g.below(65536)));
+            }
+            "plan:log"
+        }
+        2 => {
+            for _ in 0..n {
+                plan.push((loglen(g, 17), g.below(65536)));
+            }
+            "plan:coarse"
+        }
+        3 => {
+            // a quiet start of random length, then a burst of fine alternation, then long runs
+            plan.push((loglen(g, 15), g.below(65536)));
+            for _ in 0..n {
+                plan.push((g.int(0, 2) as u64, g.below(65536)));
+            }
+            plan.push((loglen(g, 14), g.below(65536)));
+            "plan:burst"
+        }
+        _ => {
+            for _ in 0..n {
+                if g.bool(1, 3) {
+                    plan.push((g.int(0, 3) as u64, g.below(65536)));
+                } else {
+                    plan.push((loglen(g, 14), g.below(65536)));
+                }
+            }
+            "plan:mixed"
+        }
+    };
+    (plan, name)
+}
+
+fn finish_with(jobs: &[(String, bool)], plan: Option<Vec<(u64, u64)>>, classes: Vec<String>, cx: &Cx) -> CaseResult {
     let key = jobs.iter().map(|(s, _)| s.as_str()).collect::<Vec<_>>().join("\u{1}");
     let hash = hash64(key.as_bytes());
-    let direct = json!({"jobs": jobs.iter().map(|(s, sc)| json!({"text": s, "sched": sc})).collect::<Vec<_>>()});
+    let mut direct = json!({"jobs": jobs.iter().map(|(s, sc)| json!({"text": s, "sched": sc})).collect::<Vec<_>>()});
+    if let Some(p) = &plan {
+        direct["plan"] = json!(p.iter().map(|(a, b)| json!([a, b])).collect::<Vec<_>>());
+    }
+    if let Some(p) = plan {
+        return finish_planned(jobs, p, classes, cx, hash, direct);
+    }
     if cx.dry {
         let mut r = CaseResult::discard("dry");
         r.render = Some(direct.clone());
@@ -182,6 +273,95 @@ fn finish(jobs: &[(String, bool)], classes: Vec<String>, cx: &Cx) -> CaseResult 
     r
 }
 
+/// the `sched` space: the same oracle under a harness-owned interleaving
+fn finish_planned(jobs: &[(String, bool)], plan: Vec<(u64, u64)>, classes: Vec<String>, cx: &Cx, hash: u64, direct: Value) -> CaseResult {
+    let hash = hash ^ hash64(format!("{plan:?}").as_bytes());
+    if cx.dry {
+        let mut r = CaseResult::discard("dry");
+        r.render = Some(direct.clone());
+        r.direct = Some(direct);
+        return r;
+    }
+    let alone: Vec<Result<String, String>> = jobs.iter().enumerate().map(|(i, (s, sc))| solo(s, *sc, hash ^ (i as u64 + 1))).collect();
+    let mut seen = 0u32;
+    let mut runs = 0u32;
+    let mut bad: Option<(usize, String, Result<String, String>)> = None;
+    let mut stats: SchedStats = (0, 0, 0);
+    let first = if cx.strict { 3 } else { 1 };
+    let mut a = 0u64;
+    while runs < first || (seen > 0 && seen < 2 && runs < first + 4) {
+        match together_with(jobs, Some(&plan), hash ^ (0x300 + a)) {
+            Err(e) => return CaseResult::discard(format!("child:{e}")),
+            Ok((r, st)) => {
+                if runs == 0 {
+                    stats = st;
+                }
+                if let Some(i) = differs(&alone, &r) {
+                    seen += 1;
+                    if bad.is_none() {
+                        let parts = match (&alone[i], &r[i]) {
+                            (Ok(a), Ok(b)) => a.split(';').zip(b.split(';')).filter(|(x, y)| x != y).map(|(x, _)| x.split(':').next().unwrap_or("").to_string()).collect::<Vec<_>>().join(","),
+                            _ => String::new(),
+                        };
+                        bad = Some((i, format!("job {i}: alone {:?}, under the planned interleaving {:?} (differing artefacts: {parts})", short(&alone[i]), short(&r[i])), r[i].clone()));
+                    }
+                }
+            }
+        }
+        runs += 1;
+        a += 1;
+    }
+    let mut r = CaseResult::held(hash);
+    let mut flaky = false;
+    if let Some((i, msg, got)) = bad {
+        let alone2: Vec<Result<String, String>> = jobs.iter().enumerate().map(|(k, (s, sc))| solo(s, *sc, hash ^ (k as u64 + 0x1000))).collect();
+        if alone2 != alone {
+            return CaseResult::discard("solo-result-not-deterministic");
+        }
+        if seen >= 2 {
+            let kind = match (&alone[i], &got) {
+                (_, Err(e)) if e.contains("poison") => "poisoned-lock",
+                (_, Err(_)) => "panic-only-when-concurrent",
+                _ => "result-contaminated",
+            };
+            r = CaseResult::fail(hash, format!("c19:{kind}"), format!("{msg} (seen in {seen} of {runs} runs of the same plan; {} scheduling points, {} switches)", stats.0, stats.1));
+        } else {
+            flaky = true;
+        }
+    }
+    r.classes = classes;
+    r.classes.push(format!("jobs:{}", jobs.len()));
+    r.classes.push(match stats.1 {
+        0..=9 => "switches:<10".to_string(),
+        10..=99 => "switches:10-99".to_string(),
+        100..=999 => "switches:100-999".to_string(),
+        _ => "switches:>=1000".to_string(),
+    });
+    if stats.2 > 0 {
+        r.classes.push("forced-turns".into());
+        r.count("forced_turns", stats.2);
+    }
+    r.count("scheduling_points", stats.0);
+    r.count("switches", stats.1);
+    if flaky {
+        r.classes.push("flaky-inconclusive-planned".into());
+        r.count("flaky_inconclusive", 1);
+    }
+    let distinct = jobs.iter().map(|(s, _)| s.as_str()).collect::<std::collections::BTreeSet<_>>().len();
+    if distinct < jobs.len() {
+        r.classes.push("identical-sources".into());
+    }
+    if alone.iter().any(|a| a.is_ok()) {
+        r.classes.push("some-job-compiles".into());
+    }
+    r.nontrivial = jobs.len() >= 2 && alone.iter().filter(|a| a.is_ok()).count() >= 2 && stats.1 >= 10 || r.is_fail();
+    if cx.render || r.is_fail() {
+        r.render = Some(json!({"jobs": jobs.iter().map(|(s, _)| s.chars().take(300).collect::<String>()).collect::<Vec<_>>(), "plan": format!("{:?}", &plan[..plan.len().min(12)]), "scheduling_points": stats.0, "switches": stats.1}));
+    }
+    r.direct = Some(direct);
+    r
+}
+
 fn short(r: &Result<String, String>) -> String {
     match r {
         Ok(d) => format!("ok:{:016x}", hash64(d.as_bytes())),
@@ -195,12 +375,19 @@ impl Prop for C19 {
     }
     fn spaces(&self, tier: Tier) -> Vec<Space> {
         match tier {
-            Tier::Quick => vec![Space { name: "stress", size: 640, exhaustive: false, chunk: 20, case_timeout_s: 300.0, what: "K=2..6 compile+run jobs (generated, shipped incl. macro/module programs, identical and near-identical sources, failing programs) started together on K threads, 2 rounds each" }],
-            Tier::Thorough => vec![Space { name: "stress", size: 6000, exhaustive: false, chunk: 40, case_timeout_s: 300.0, what: "K=2..6 concurrent compile+run jobs, 2 rounds each" }],
+            Tier::Quick => vec![
+                Space { name: "sched", size: 1200, exhaustive: false, chunk: 25, case_timeout_s: 300.0, what: "K=2..4 compile+run jobs under a harness-owned interleaving: one thread runs at a time, switching at session-globals accesses where the case's plan says (fine alternation, log-uniform, coarse, burst and mixed plans)" },
+                Space { name: "stress", size: 640, exhaustive: false, chunk: 20, case_timeout_s: 300.0, what: "K=2..6 compile+run jobs (generated, shipped incl. macro/module programs, identical and near-identical sources, failing programs) started together on K threads, 2 rounds each" },
+            ],
+            Tier::Thorough => vec![
+                Space { name: "sched", size: 20000, exhaustive: false, chunk: 40, case_timeout_s: 300.0, what: "K=2..4 jobs under a harness-owned interleaving" },
+                Space { name: "stress", size: 6000, exhaustive: false, chunk: 40, case_timeout_s: 300.0, what: "K=2..6 concurrent compile+run jobs, 2 rounds each" },
+            ],
         }
     }
-    fn run(&self, _space: &str, _index: u64, g: &mut Gen, cx: &Cx) -> CaseResult {
-        let k = g.int(2, 6) as usize;
+    fn run(&self, space: &str, _index: u64, g: &mut Gen, cx: &Cx) -> CaseResult {
+        let planned = space == "sched";
+        let k = if planned { g.int(2, 4) as usize } else { g.int(2, 6) as usize };
         let (cfg, _) = c01::pcfg(cx);
         let mut jobs: Vec<(String, bool)> = vec![];
         let mut classes = vec![];
@@ -258,6 +445,13 @@ impl Prop for C19 {
                 }
             }
         }
+        if planned {
+            let (plan, name) = gen_plan(g);
+            classes.push(name.to_string());
+            classes.sort();
+            classes.dedup();
+            return finish_with(&jobs, Some(plan), classes, cx);
+        }
         classes.sort();
         classes.dedup();
         finish(&jobs, classes, cx)
@@ -266,6 +460,10 @@ impl Prop for C19 {
         let jobs: Vec<(String, bool)> = input.get("jobs")?.as_array()?.iter().filter_map(|j| Some((j.get("text")?.as_str()?.to_string(), j.get("sched").and_then(|v| v.as_bool()).unwrap_or(false)))).collect();
         if jobs.is_empty() {
             return None;
+        }
+        if let Some(p) = input.get("plan").and_then(|p| p.as_array()) {
+            let plan: Vec<(u64, u64)> = p.iter().map(|e| (e[0].as_u64().unwrap_or(1), e[1].as_u64().unwrap_or(0))).collect();
+            return Some(finish_with(&jobs, Some(plan), vec![], cx));
         }
         Some(finish(&jobs, vec![], cx))
     }
@@ -276,22 +474,35 @@ impl Prop for C19 {
                 for i in 0..js.len() {
                     let mut v = js.clone();
                     v.remove(i);
-                    out.push(json!({"jobs": v}));
+                    let mut o = json!({"jobs": v});
+                    if let Some(p) = input.get("plan") {
+                        o["plan"] = p.clone();
+                    }
+                    out.push(o);
+                }
+            }
+            if let Some(p) = input.get("plan").and_then(|p| p.as_array()) {
+                // shorter plans (the plan repeats cyclically, so halving keeps a schedule)
+                if p.len() > 1 {
+                    for half in [&p[..p.len() / 2], &p[p.len() / 2..]] {
+                        out.push(json!({"jobs": js, "plan": half}));
+                    }
                 }
             }
         }
         out
     }
     fn rule(&self) -> String {
-        "Cases are sets of K=2..6 jobs; a job compiles a source for both backends and runs 8 samples on both runtimes (artefacts: bytecode listing, WASM bytes, state layouts, I/O channels, outputs; diagnostics or a panic signature for failing programs). Sources: generated programs, shipped sources (incl. programs with macros, which set the process environment variable, and modules), exact duplicates, near-duplicates differing in one literal, and broken texts. Sources also include programs over user sum types (half of them with a match that misses several constructors, so that the diagnostic lists names) and a program that mentions the identifiers of another job in a shuffled order. The compared artefacts include the diagnostic messages of refused programs. Each job is first run alone in its own fresh child process; then all jobs are started together on K OS threads behind a barrier in a fresh child process that has compiled nothing before (2 such processes per case). Oracle: every job's artefacts equal its solo artefacts; no panic that does not also occur alone. A difference is reported when it is seen in at least three concurrent runs (up to 20 further runs are made) and the solo artefacts are stable; otherwise it is counted as flaky-inconclusive. Non-trivial = at least two jobs that compile.".into()
+        "Cases are sets of K=2..6 jobs; a job compiles a source for both backends and runs 8 samples on both runtimes (artefacts: bytecode listing, WASM bytes, state layouts, I/O channels, outputs; diagnostics or a panic signature for failing programs). Sources: generated programs, shipped sources (incl. programs with macros, which set the process environment variable, and modules), exact duplicates, near-duplicates differing in one literal, and broken texts. Sources also include programs over user sum types (half of them with a match that misses several constructors, so that the diagnostic lists names) and a program that mentions the identifiers of another job in a shuffled order. The compared artefacts include the diagnostic messages of refused programs. Each job is first run alone in its own fresh child process; then all jobs are started together on K OS threads behind a barrier in a fresh child process that has compiled nothing before (2 such processes per case). Oracle: every job's artefacts equal its solo artefacts; no panic that does not also occur alone. A difference is reported when it is seen in at least three concurrent runs (up to 20 further runs are made) and the solo artefacts are stable; otherwise it is counted as flaky-inconclusive. Non-trivial = at least two jobs that compile. Space `sched`: the same jobs (K=2..4) and the same oracle, but the interleaving belongs to the case: the repository hook `interner::verif_hooks` calls the harness in front of every session-globals access (about 14 000 such points per compiled job), a cooperative scheduler lets exactly one job thread run at a time and hands the turn over where the case's plan says; a plan is a list of 4..50 (segment length, thread pick) pairs drawn from the tape in five styles (fine alternation of 1-4 points, log-uniform up to 8 000, coarse up to 260 000, a burst of fine alternation after a quiet start of random length, mixed) and repeats cyclically. A difference under a plan is re-run with the same plan (up to 4 more times) and reported when seen at least twice; non-trivial there additionally needs at least 10 turn switches.".into()
     }
     fn assumptions(&self) -> Vec<String> {
         vec![
-            "interleavings are whatever the OS scheduler produces on this machine: the harness does not own the schedule, so a rare interleaving can be missed and a difference seen fewer than three times in 22 concurrent runs is not reported".into(),
+            "space `stress`: interleavings are whatever the OS scheduler produces on this machine, so a rare interleaving can be missed and a difference seen fewer than three times in 22 concurrent runs is not reported".into(),
+            "space `sched`: the harness owns the interleaving only at the granularity of session-globals accesses (hook H3); code between two such accesses runs atomically, so races on other shared state are exercised only insofar as a session-globals access lies inside their window; a job thread's own behaviour is not perfectly deterministic (the number of scheduling points of one job varies by a fraction of a percent between processes), so a plan fixes the interleaving approximately".into(),
             "deadlocks would show as a case hitting the 300 s limit, which this property treats as inconclusive".into(),
         ]
     }
     fn required_classes(&self, _tier: Tier) -> Vec<&'static str> {
-        vec!["job:generated", "job:shipped", "job:macro", "job:duplicate", "job:broken", "job:ident-shuffle", "some-job-compiles", "identical-sources"]
+        vec!["job:generated", "job:shipped", "job:macro", "job:duplicate", "job:broken", "job:ident-shuffle", "some-job-compiles", "identical-sources", "plan:fine", "plan:log", "plan:coarse", "plan:burst", "plan:mixed", "switches:>=1000"]
     }
 }
